@@ -163,6 +163,12 @@ def analyse(repo, R, taken, findings):
 
 
 def run(repo, R):
+    R.rule("INPUTS", "the public wrapper uses its parameters as given: no path replaces one by a filtered/re-ordered/scaled/defaulted copy")
+    from ..flow import check_wrapper_inputs
+    for _w in ['gbasis.integrals.point_charge.point_charge_integral']:
+        _wf = repo.func(_w)
+        R.note_function(_wf.qualname)
+        check_wrapper_inputs(repo, _wf, R)
     R.rule("V0", "start of the vertical recursion: (2 pi/p) F_m(p |P-C|^2) exp(-mu |A-B|^2) for every m")
     R.rule("Vv", "vertical Obara-Saika step on the shell being built, for x, y and z")
     R.rule("Vc", "primitives contracted once per shell with coefficients x (2a/pi)^(3/4)(4a)^(l/2), at Boys order 0")
@@ -202,7 +208,7 @@ def run(repo, R):
     g = repo.func("gbasis.integrals.nuclear_electron_attraction.nuclear_electron_attraction_integral")
     R.note_function(g.qualname)
     n0 = len(R.findings)
-    check_nuc_wrapper(repo, g, R)
+    check_nuc_wrapper(repo, g, R, inputs_rule=True)
     R.assumptions += ["Obara-Saika nuclear-attraction recurrences (Helgaker 9.10.26-27) and the horizontal recurrence as in DESIGN.md 2.2",
                       "the Boys function is uninterpreted apart from its arguments; scipy.special.hyp1f1 is 1F1", "assembly under C09"]
     return ("STENCIL + AXTYPE on the point-charge kernel chain for both orientations of the L_a >= L_b swap: the start value (Boys "
